@@ -562,16 +562,21 @@ func cFuncBody(csrc, fn string) (string, bool) {
 	}
 }
 
-func shapeCheck(r *hlib.Run, tc *toolchain) {
+func shapeCheck(r *rec, tc *toolchain) {
 	probes := buildProbes()
 	var kept []probe
 	head := "pub struct s?(\n    f : base.u8,\n)\n\n"
 	var src strings.Builder
 	src.WriteString(head)
-	for _, p := range probes {
-		if _, err := parseAndCheck("probe.wuffs", []byte(head+p.src)); err != nil {
+	srcs := make([]string, len(probes))
+	for i, p := range probes {
+		srcs[i] = p.src
+	}
+	acc, why := acceptedAll("probe.wuffs", head, srcs)
+	for i, p := range probes {
+		if !acc[i] {
 			r.Count("shape:probe-rejected-by-checker")
-			r.Note("shape probe rejected: " + p.op + ": " + firstLines(err.Error(), 1))
+			r.Note("shape probe rejected: " + p.op + ": " + why[i])
 			continue
 		}
 		kept = append(kept, p)
